@@ -178,7 +178,15 @@ Step(s, e) ==
            IN IF x1.s.waiting = {} THEN SendRequests(x1, e) ELSE x1
       [] e.a = "MetaRetry" ->
            LET x1 == Lookup(st0, e.sid, e) IN IF x1.s.waiting = {} THEN SendRequests(x1, e) ELSE x1
-      [] e.a = "ProduceDone" -> HandleResult(st0, e)
+      [] e.a = "ProduceDone" ->
+           \* the client's own view of the topics changes with the outcome before the producer sees it (C08): a payload
+           \* answered 3 or 6 invalidates its topic, a payload that could not be delivered everything
+           LET idx == SentIdx(s)
+               \* (when a recorded execution is validated -- MaxDepth = 0 -- the client's view is given by the record)
+               kn2 == IF e.res.kind # "resp" \/ MaxDepth = 0 THEN s.kn
+                      ELSE IF \E k \in DOMAIN idx : e.res.codes[k] < 0 THEN {}
+                      ELSE s.kn \ {s.pay[idx[k]][1] : k \in {j \in DOMAIN idx : e.res.codes[j] \in {3, 6}}}
+           IN HandleResult([s |-> [s EXCEPT !.kn = kn2], out |-> <<>>], e)
       [] e.a = "RetryFire" ->
            LET pl == [k \in DOMAIN s.retry |-> s.pay[s.retry[k]]] IN
            Act([s |-> [s EXCEPT !.phase = "sent", !.attempts = @ + 1], out |-> <<>>], <<"produce", pl>>)
